@@ -68,10 +68,12 @@ def with_fields_set(cls: Cls) -> Cls:
         self.__dict__[FIELDS_SET_ATTR] = prev_fields_set | arg_fields | post_init_fields
 
     def new_setattr(self, attr, value):
-        try:
-            self.__dict__[FIELDS_SET_ATTR].add(attr)
-        except KeyError:
-            raise RuntimeError(dataclass_before_error) from None
+        # __orig_class__ is set by typing on instances of a parametrized generic class
+        if attr != "__orig_class__":
+            try:
+                self.__dict__[FIELDS_SET_ATTR].add(attr)
+            except KeyError:
+                raise RuntimeError(dataclass_before_error) from None
         old_setattr(self, attr, value)  # type: ignore
 
     for attr, old, new in [
